@@ -234,7 +234,27 @@ func (g *Gen) RangeFilter(depth int) types.Map {
 		}
 		return types.NewSlice(vs...)
 	}
-	switch g.R.Weighted([]int{5, 3, 4, 2, 2}) {
+	switch g.R.Weighted([]int{5, 3, 4, 2, 2, 4}) {
+	case 5:
+		// every branch of a top-level $or constrains the SAME key (often the always-indexed id), with
+		// bounded, half-open and point branches in any order – what the planner's union has to widen
+		// correctly (seeded changes c10d / c09d broke union for such lists)
+		g.hit("range:$or-same-key")
+		k := lib.Pick(g.R, []string{"id", "id", "a", "b", "n.x"})
+		n := g.R.Range(2, 4)
+		vs := make([]types.Value, n)
+		for i := range vs {
+			if g.R.Chance(1, 3) {
+				pv := g.FieldValue(k)
+				if k == "id" {
+					pv = g.Id()
+				}
+				vs[i] = types.NewMap(S(k), pv)
+			} else {
+				vs[i] = types.NewMap(S(k), rng(k))
+			}
+		}
+		return types.NewMap(S("$or"), types.NewSlice(vs...))
 	case 0:
 		g.hit("range:fields")
 		return one()
